@@ -52,7 +52,7 @@ COMMON = ("Program = slip.List tree built by the typed generator zzGen from the 
   "position is wrapped in (zzvtrace k e), a transparent special form recording (k, primary value). Parameters "
   "(k0,s0,k1,s1,k2,variant) name the skeleton: kind of the outer form, the slot holding a nested form of kind k1, its slot "
   "holding kind k2 (-1 = leaves only), variant rotates leaf choice (literal / which variable). Symbolic: every literal "
-  "L_i and the initial values of x and y (all 64-bit values; + wraps in the interpreter as int64 does in the oracle, whether it should is C05). "
+  "L_i and the initial values of x and y (all 32-bit values as fixnums, so the additions of a program cannot leave the fixnum range; behaviour at the fixnum boundary is C05). "
   "Control depending on them (tests, case keys, loop counts, recursion depth) is decided by the solver. Loop bounds (assumed by "
   "the reference run, before the interpreter runs): dotimes count -1..3, do/do* <= 3 iterations per program, <= 12 function calls. "
   "Oracle: zzRef, an independently written evaluator (lexical environments, parallel let / sequential let*, closures, "
